@@ -15,13 +15,14 @@ Pow(j) == IF j >= 0 THEN R(2 ^ j, 0, 0) ELSE R(1, 0, -j)         \* 2^j in the r
 ScaleVal(sg, j) == IF sg = 1 THEN RNeg(Pow(j)) ELSE Pow(j)
 Signs3 == {<<a, b, c>> : a, b, c \in {0, 1}}
 \* exponents of the three scale magnitudes; 2^-10 .. 2^10 spans the property's [1e-3, 1e3]
-Mags3 == IF Quick THEN {<<0, 1, -1>>, <<2, -2, 1>>, <<-10, -10, -9>>, <<10, -10, 0>>}
+Mags3 == IF Quick THEN {<<0, 1, -1>>, <<2, -2, 1>>, <<-10, -10, -9>>, <<10, -10, 0>>, <<9, 10, 10>>}
          ELSE {<<0, 0, 0>>, <<0, 1, -1>>, <<2, -2, 1>>, <<1, 2, 0>>, <<-1, -1, -2>>, <<-10, -10, -9>>, <<10, -10, 0>>, <<9, 10, 10>>, <<-10, 3, 10>>}
 Seeds3 == IF Quick THEN {<<a, b, c>> \in (-3..4) \X (-3..4) \X (-3..4) : (a + 2 * b + 3 * c + Seed) % 29 = 0}
           ELSE {<<a, b, c>> \in (-3..4) \X (-3..4) \X (-3..4) : (a + 2 * b + 3 * c + Seed) % 5 = 0}
 Trans3 == {<<1, -2, 3>>, <<0, 0, 0>>, <<3, -5, 7>>, <<-40, 24, 12>>}
 Calls ==
-         [kind : {"srt3"}, seed : Seeds3, sg : Signs3, mag : Mags3, t : Trans3, j : {0}]
+         \* j = 1: the same translation times a huge power of two (2^121 in f32, 2^1017 in f64): any finite translation is in the domain
+         [kind : {"srt3"}, seed : Seeds3, sg : Signs3, mag : Mags3, t : Trans3, j : {0, 1}]
     \cup [kind : {"srt2"}, seed : {<<0, 0, 0>>}, sg : {<<a, b, 0>> : a, b \in {0, 1}}, mag : Mags3, t : {<<5, -7, 0>>, <<0, 0, 0>>, <<-48, 96, 0>>}, j : -3..4]
 
 Eval(c) ==
@@ -44,7 +45,8 @@ Eval(c) ==
 Init == ph = "call" /\ call \in Calls /\ res = <<>>
 Next == ph = "call" /\ ph' = "ret" /\ res' = Eval(call) /\ UNCHANGED call
 Spec == Init /\ [][Next]_vars
-Emit == ph = "ret" => PrintT(<<"CASE", ToJson([fam |-> "srt", kind |-> call.kind, seed |-> call.seed, j |-> call.j, exp |-> res])>>)
+Emit == ph = "ret" => PrintT(<<"CASE", ToJson([fam |-> "srt", kind |-> call.kind, seed |-> call.seed, j |-> call.j,
+                                                huge |-> IF call.kind = "srt3" THEN call.j ELSE 0, exp |-> res])>>)
 
 \* the composed linear part has determinant product(s) and orthogonal columns of the given lengths
 SrtTheorems ==
